@@ -119,6 +119,24 @@ def classify(w):
         except BaseException as ex:   # noqa
             return 'ORaises', f'accessor raised {type(ex).__name__}: {ex}'
         reads.append((he, repr(r), type(e).__name__ if e is not None else None, alive))
+    # the same from threads which did not exist when the worker died (identifiers of finished threads are handed out again)
+    for _ in range(2):
+        box = {}
+
+        def look():
+            try:
+                box['v'] = (w.has_error, repr(w.result), type(w.error).__name__ if w.error is not None else None, w.is_alive(), w.wait(0), w.terminate(0))
+            except BaseException as ex:   # noqa
+                box['x'] = f'{type(ex).__name__}: {ex}'
+        t = threading.Thread(target=look)
+        t.start(); t.join(20)
+        if 'x' in box:
+            return 'ORaises', f'seen from a thread started after the death: {box["x"]}'
+        if 'v' not in box:
+            return 'ORaises', 'a thread started after the death blocks in the accessors / wait(0) / terminate(0) of the dead worker'
+        if box['v'][4] is not True or box['v'][5] is not True:
+            return 'ORaises', f'seen from a thread started after the death: wait(0) -> {box["v"][4]}, terminate(0) -> {box["v"][5]} on a dead worker'
+        reads.append(box['v'][:4])
     if len(set(reads)) != 1:
         return 'ORaises', f'observations change between reads: {reads}'
     he, r, e = w.has_error, w.result, w.error
